@@ -117,9 +117,11 @@ def obligations(tier):
         for r1 in (False, True):
             obs.append(linsum_ob(wb, r1))
     obs.append(linsum_ob(True, False, square=True))
+    from .common import endpoint_contiguity_ob
+    obs.append(endpoint_contiguity_ob(model.load(), "indexlist"))
     return obs
 
 
-FLOORS = {"group:marginal": 8, "group:linsum": 5}
+FLOORS = {"group:marginal": 8, "group:linsum": 5, "group:indexlist": 1}
 LEVEL = "proof"
 EXPLANATION = "get_marginal (full, diagonal) and get_density_of_linear_sum interpreted on generic tensors; compared with (P mu, P Sigma P') / (W mu + b, W Sigma W') and with the Normal log-density of the result."
